@@ -307,8 +307,9 @@ def periodogram_csd(s, Fs=2 * np.pi, Sk=None, NFFT=None, sides='default',
         the output is (M,M,N)
 
     """
-    s_shape = s.shape
-    s.shape = (-1, s_shape[-1])
+    # work on a 2-d view (a copy, for input that cannot be viewed that way):
+    # the caller's array keeps its shape whatever happens below
+    s = s.reshape((-1, s.shape[-1]))
     # defining an Sk_loc is a little opaque, but it avoids having to
     # reset the shape of any user-given Sk later on
     if Sk is not None:
@@ -321,8 +322,6 @@ def periodogram_csd(s, Fs=2 * np.pi, Sk=None, NFFT=None, sides='default',
         else:
             N = s.shape[-1]
         Sk_loc = fftpack.fft(s, n=N)
-    # reset s.shape
-    s.shape = s_shape
 
     M = Sk_loc.shape[0]
 
